@@ -75,4 +75,14 @@ pub open spec fn render_imports<'a>(m: Map<&'a str, Set<&'a str>>) -> Seq<char> 
     render_entries(m, canon(m.dom()), canon(m.dom()).len() as int)
 }
 
+pub proof fn lemma_to_set_push<T>(s: Seq<T>, x: T)
+    ensures s.push(x).to_set() =~= s.to_set().insert(x)
+{
+    assert forall|y: T| s.push(x).to_set().contains(y) <==> s.to_set().insert(x).contains(y) by {
+        if s.push(x).contains(y) { let k = choose|k: int| 0 <= k < s.push(x).len() && s.push(x)[k] == y; if k < s.len() { assert(s[k] == y); assert(s.contains(y)); } }
+        if s.contains(y) { let k = choose|k: int| 0 <= k < s.len() && s[k] == y; assert(s.push(x)[k] == y); }
+        if y == x { assert(s.push(x)[s.len() as int] == x); }
+    }
+}
+
 } // verus!
